@@ -19,7 +19,7 @@ def answerCore (fs : List (String × String)) : E String := do
     let κ : Mat N N Fix := matOf κa N N
     if op == "lle" || op == "ltsa" || op == "hlle" then
       let nb ← needNb fs "nb" N hN
-      let (M, nnz, tscale) ← if op == "lle" then runModelLle hN fs κ nb else runModelEig hN fs κ nb (op == "hlle")
+      let (M, nnz, tscale, genNote) ← if op == "lle" then runModelLle hN fs κ nb else runModelEig hN fs κ nb (op == "hlle")
       if (field? fs "abort").isSome then
         return s!"res=FAIL:abort model=ok"
       let Mi ← needMat fs "M" N N
@@ -29,6 +29,7 @@ def answerCore (fs : List (String × String)) : E String := do
         return "dump model=" ++ String.intercalate ";" (M.toList.map fun r => String.intercalate "," (r.toList.map showFix))
           ++ " impl=" ++ String.intercalate ";" (Mi.toList.map fun r => String.intercalate "," (r.toList.map showFix))
       if !c.ok then return s!"res=FAIL:matrix-differs-from-model {describe c} approx={N * N}"
+      if let some g := genNote then return s!"res=BROKEN:{g}"
       if nnzI ≠ nnz then return s!"res=BROKEN:sparsity impl={nnzI} model={nnz}"
       return s!"res=ok {describe c} approx={N * N} exact=1"
     else if op == "embed" then
@@ -47,7 +48,7 @@ def answerCore (fs : List (String × String)) : E String := do
       match knnContract κ nb with
       | some e => return s!"res=BROKEN:neighbours {e}"
       | none => pure ()
-      let (M, _, tscale) ← if method == "klle" then runModelLle hN fs κ nb else runModelEig hN fs κ nb (method == "hlle")
+      let (M, _, tscale, genNote) ← if method == "klle" then runModelLle hN fs κ nb else runModelEig hN fs κ nb (method == "hlle")
       if threw != "-" then return s!"res=FAIL:threw what={threw}"
       let lhs ← needMat fs "lhs" N N
       let c := cmpArr tolM lhs M tscale
@@ -93,6 +94,7 @@ def answerCore (fs : List (String × String)) : E String := do
           if !(worst ≤ tolPow 18 * maxAbsArr Y) then
             return s!"res=FAIL:flat:not-affine dev={flatS} {certLine co}"
       -- correspondence: what was handed to the solver, how it was called, what was returned
+      if let some g := genNote then return s!"res=BROKEN:{g}"
       if !c.ok then return s!"res=BROKEN:solver-input {describe c} approx={N * N}"
       if hook != s!"1,1,1,0,{d}" then return s!"res=BROKEN:solver-call calls,skip,smallest,gen,td={hook}"
       if (cmpArr 0 Y vecs).maxdev.m ≠ 0 then return "res=BROKEN:embedding-is-not-the-solver-output"
@@ -106,10 +108,14 @@ def answerIdx (fs : List (String × String)) : String :=
   | none => "res=BADCASE:d"
   | some d =>
     let cols := String.intercalate "," ((hlleWrittenCols d).map toString)
+    let writes := String.intercalate "," ((hlleWrites d).map fun w => s!"{w.1}:{w.2.1}:{w.2.2}")
     let err := match hlleIndexErr d with
       | none => "none"
       | some e => reprStr e
-    s!"res=ok cols={cols} err={err}"
+    let dI : Int := d
+    s!"res=ok cols={cols} err={err} writes={writes} dp={hlleDp d} ncols={hlleCols d} " ++
+      s!"rightcols={Gen.HlleIndex.rightColsArg dI (Gen.HlleIndex.dpExpr dI)} " ++
+      s!"tangent={Gen.HlleIndex.tangentBlockCols dI},{Gen.HlleIndex.tangentRightCols dI}"
 
 def answer (line : String) : String :=
   let fs := fields line
